@@ -28,16 +28,17 @@ type Sub struct {
 
 // Conn implements res.Conn.
 type Conn struct {
-	mu       sync.Mutex
-	Subs     []*Sub
-	Pubs     []Pub
-	Closed   int
-	FailSubs map[int]bool // indexes (in call order) of subscribe calls that fail
-	nsubs    int
-	OnPub    func(Pub) // called outside the lock, in publish order per goroutine
-	cond     *sync.Cond
-	sendMu   sync.RWMutex // held (shared) while delivering; Close waits for deliveries in flight
-	noSend   bool
+	mu          sync.Mutex
+	Subs        []*Sub
+	Pubs        []Pub
+	Closed      int
+	FailSubs    map[int]bool // indexes (in call order) of subscribe calls that fail
+	nsubs       int
+	OnPub       func(Pub)            // called outside the lock, in publish order per goroutine
+	OnSubscribe func(subject string) // called before each subscription is recorded
+	cond        *sync.Cond
+	sendMu      sync.RWMutex // held (shared) while delivering; Close waits for deliveries in flight
+	noSend      bool
 }
 
 // New returns a connection.
@@ -95,6 +96,9 @@ func (c *Conn) PublishRequest(subject, reply string, payload []byte) error {
 }
 
 func (c *Conn) subscribe(subject, queue string, ch chan *nats.Msg) (*nats.Subscription, error) {
+	if cb := c.OnSubscribe; cb != nil {
+		cb(subject) // outside the lock: the callback may use the connection
+	}
 	c.mu.Lock()
 	defer c.mu.Unlock()
 	idx := c.nsubs
